@@ -377,8 +377,8 @@ def replay(case):
         if r is None:
             return {'reproduced': False, 'detail': 'lossless (or malformed source)'}
         return {'reproduced': True, 'detail': 'sheet %r with encoding %r: %s' % (text, enc, r),
-                'fields': {'symptom': 'lossy', 'kernel': inp['kernel'], 'enc': enc,
-                           'representable': _representable(text, enc)}}
+                'fields': dict(features(inp['kernel'], text), symptom='lossy', kernel=inp['kernel'], enc=enc,
+                               representable=_representable(text, enc))}
     cssutils.log.setLevel(60)
     depth = inp['depth']
     choice = {k: v for k, v in inp.items() if k != 'depth'}
@@ -394,6 +394,24 @@ def replay(case):
                        'text_delivery': any(v for k, v in choice.items() if k.endswith('_text')),
                        'nonepair': any(RESULT[v] == 'nonepair' for k, v in choice.items() if k.endswith('_result')),
                        'bom': any(CONTENT[v] == 'bom' for k, v in choice.items() if k.endswith('_content'))}}
+
+
+def features(kernel, text):
+    """the input features the C03 findings are told apart by (same defects, seen through the byte interface)"""
+    import re
+    pre, suf = next((p, q) for n, p, q in KERNELS if n == kernel)
+    hole = text[len(pre):len(text) - len(suf)] if len(text) >= len(pre) + len(suf) else text
+    special = False
+    for m in re.finditer(r'\\([0-9a-fA-F]{1,6})|\\([^\n\r\f0-9a-fA-F])', text):
+        c = chr(int(m.group(1), 16)) if m.group(1) and int(m.group(1), 16) <= 0x10FFFF else (m.group(2) or '')
+        if c and not (c.isascii() and (c.isalpha() or c == '_')) and ord(c) < 0x80:
+            special = True
+    return {
+        'special_escape': special,
+        'comment_linebreak': kernel == 'comment' and any(c in hole for c in '\n\r\f'),
+        'py_whitespace': any(c.isspace() and c not in ' \t\r\n\f' for c in text),
+        'string_backslash': kernel in ('string', 'url', 'url-dq', 'attr', 'import', 'namespace', 'page', 'fontface') and '\\' in hole,
+    }
 
 
 def _representable(text, enc):
